@@ -87,6 +87,20 @@ class Scheduler:
         self.step_cap = step_cap
         self.hang_timeout_s = hang_timeout_s
         self.preempt_lines = preempt_lines and self.mode != "sequential"
+        if self.mode == "explicit" and "trace_primaries" in schedule:
+            self.preempt_lines = preempt_lines and bool(schedule["trace_primaries"])
+        self.lines_allowed = preempt_lines
+        # "widen": line events also in a few lock-free stdlib frames that C-level container
+        # operations call back into (Enum.__hash__, DynamicClassAttribute.__get__,
+        # cached_property.__get__, the Sequence mixin methods): a dict operation keyed by an enum
+        # member is not atomic.  On for a quarter of the scheduled runs (a function of the schedule
+        # seed), always on for threads the library started itself.
+        self.widen = bool(schedule.get("widen", int(schedule.get("seed", 0)) % 4 == 1))
+        self._wide_codes = _wide_code_objects()
+        self._cb_rng = random.Random(int(schedule.get("seed", 0)) ^ 0x5EED_CB)
+        self._cb_hold_until = 0
+        self._adopt_gap = self._cb_rng.choice([3, 10, 30, 100])
+        self._adopt_next = 0
         # "line": sys.settrace line events; "opcode": sys.monitoring INSTRUCTION events on every
         # code object of the package (incl. dataclass-generated methods) and on a few lock-free
         # stdlib helpers the package's shared state passes through (cached_property.__get__)
@@ -99,6 +113,7 @@ class Scheduler:
         self.interleaving = hashlib.sha256()  # (thread, location) at switches + op order
         self.loc_pairs: set[str] = set()
         self.done = simthreads.RawSem()
+        self.obj_seq = 0  # creation numbers of Thread / Future objects made by simulated threads
         self.sim_clock = 1000.0  # simulated seconds; advances only when a timed wait expires
         self.deadlock: str | None = None
         self.current: Client | None = None
@@ -315,12 +330,44 @@ class Scheduler:
                 self.record("abort", cur.idx, cur.op_index, cur.op_step, cur.abort_fired_at)
                 assert exc is not None
                 raise exc
-        nxt = self._decide(cur, boundary)
+        nxt = None
+        if self.mode != "explicit" and not boundary:
+            if self.global_step < self._cb_hold_until:
+                return  # the thread that was let in through a callback window runs undisturbed
+            if frame is not None and not isinstance(frame, tuple) and frame.f_code in self._wide_codes:
+                nxt = self._decide_callback_window(cur)
+            elif cur.adopted and self.mode == "sequential":
+                nxt = self._decide_adopted(cur)
+        if nxt is None:
+            nxt = self._decide(cur, boundary)
         if nxt is None or nxt is cur:
             return
         where = self._location(frame)
         self._switch(cur, nxt, "sw", where, mid_op=cur.in_op and not boundary)
         cur.sem.acquire()
+
+    def _decide_callback_window(self, cur: Client) -> Client | None:
+        """``cur`` is inside Python code that a C-level container operation called back into
+        (``Enum.__hash__`` during a dict store, a descriptor ``__get__``): the operation is half
+        done.  With probability 1/4 another thread is let in and runs for a long stretch."""
+        self.probe("line_events_in_callback_windows")
+        if self._cb_rng.random() < 0.25:
+            others = [c for c in self._runnable() if c is not cur]
+            if others:
+                self._cb_hold_until = self.global_step + 1 + int(self._cb_rng.expovariate(1.0 / 1500))
+                self.probe("switched_inside_callback_window")
+                return others[self._cb_rng.randrange(len(others))]
+        return None
+
+    def _decide_adopted(self, cur: Client) -> Client | None:
+        """History-only ("sequential") runs do not pre-empt the caller threads, but threads the
+        library runs itself are concurrent whatever the caller does: pre-empt them geometrically."""
+        if self.global_step >= self._adopt_next:
+            self._adopt_next = self.global_step + 1 + int(self._cb_rng.expovariate(1.0 / self._adopt_gap))
+            others = [c for c in self._runnable() if c is not cur]
+            if others:
+                return others[self._cb_rng.randrange(len(others))]
+        return None
 
     def _switch(self, cur: Client, nxt: Client, kind: str, where: str, mid_op: bool) -> None:
         self.decisions.append([self.global_step, kind, cur.idx, nxt.idx, where])
@@ -387,8 +434,8 @@ class Scheduler:
     def arm_adopted(self, c: Client) -> None:
         c.in_op = True
         c.op_index = -1
-        if self.preempt_lines and not c.untraced:
-            if self.granularity == "opcode":
+        if self.lines_allowed and not c.untraced:
+            if self.preempt_lines and self.granularity == "opcode":
                 c.suspended = 0
             else:
                 sys.settrace(c.trace_fn)
@@ -504,8 +551,10 @@ class Scheduler:
                 yp(client, frame)
             return local_trace
 
+        wide = self._wide_codes if (self.widen or client.adopted) else frozenset()
+
         def global_trace(frame: Any, event: str, arg: Any) -> Any:
-            if frame.f_code.co_filename.startswith(prefix):
+            if frame.f_code.co_filename.startswith(prefix) or frame.f_code in wide:
                 return local_trace
             return None
 
@@ -599,10 +648,10 @@ class Scheduler:
         for co in self._codes:
             mon.set_local_events(self.TOOL_ID, co, E.INSTRUCTION)
         yp = self.yield_point
-        cur_thread = threading.current_thread
+        cur_client = simthreads.current_client
 
         def on_instruction(code: Any, offset: int) -> Any:
-            c = getattr(cur_thread(), "sim_client", None)
+            c = cur_client()
             if c is None or c.suspended or c.finished or not c.started:
                 return None
             c.suspended += 1  # never re-enter from code run by the scheduler itself
@@ -629,6 +678,7 @@ class Scheduler:
         assert len(bodies) == len(self.clients)
 
         def runner(client: Client, body: Callable[[Client], None]) -> None:
+            simthreads.register_current(client)
             client.sem.acquire()
             client.started = True
             try:
@@ -639,6 +689,7 @@ class Scheduler:
             finally:
                 sys.settrace(None)
                 client.suspended = 1
+                simthreads.unregister_current()
                 self.finish(client)
 
         if self.preempt_lines and self.granularity == "opcode":
@@ -746,9 +797,32 @@ class Scheduler:
     # ------------------------------------------------------------------ results
     def explicit_schedule(self) -> dict[str, Any]:
         """The decisions actually taken, as an explicit (replayable, minimisable) tape."""
-        return {"mode": "explicit", "granularity": self.granularity,
+        return {"mode": "explicit", "granularity": self.granularity, "widen": self.widen,
+                "trace_primaries": self.preempt_lines,
                 "switches": [[d[0], d[3]] for d in self.decisions if d[1] in ("sw", "fin", "start", "blk", "tmo")],
                 "where": [d[4] for d in self.decisions if d[1] in ("sw", "fin", "start", "blk", "tmo")]}
+
+
+_WIDE: frozenset[Any] | None = None
+
+
+def _wide_code_objects() -> frozenset[Any]:
+    """Code objects of lock-free stdlib Python functions that C-level operations on the package's
+    objects call back into."""
+    global _WIDE
+    if _WIDE is None:
+        import _collections_abc
+        import enum
+        import functools
+        import types
+
+        fns = [enum.Enum.__hash__, types.DynamicClassAttribute.__get__,
+               functools.cached_property.__get__,
+               _collections_abc.Sequence.__iter__, _collections_abc.Sequence.__contains__,
+               _collections_abc.Sequence.__reversed__, _collections_abc.Sequence.index,
+               _collections_abc.Sequence.count]
+        _WIDE = frozenset(f.__code__ for f in fns if hasattr(f, "__code__"))
+    return _WIDE
 
 
 def make_abort_exc(kind: str) -> BaseException:
@@ -770,4 +844,4 @@ def make_abort_exc(kind: str) -> BaseException:
 
 
 def current_client() -> Client | None:
-    return getattr(threading.current_thread(), "sim_client", None)
+    return simthreads.current_client()
